@@ -637,3 +637,167 @@ Lemma hd_follow_anyof ps ps' mx s :
 Proof.
   intros H (i & t & r & -> & Ha). apply follow_head. eapply anyof_sub; eassumption.
 Qed.
+
+(* open the pattern matches of a grammar equation *)
+Ltac gmatch H :=
+  repeat (cbv beta iota in H;
+          match type of H with
+          | context [match ?x with _ => _ end] => is_var x; destruct x; try discriminate H
+          end);
+  cbv beta iota in H.
+
+Ltac gtag H tg :=
+  match type of H with
+  | context [?tag =? tg] =>
+      let E := fresh "Et" in destruct (tag =? tg) eqn:E; [apply Z.eqb_eq in E; try subst tag | try discriminate H]
+  end.
+
+(* ------------------------------------------------------------------ the token after a leading name *)
+Lemma g_suf_head n x s s' : g_suf n x s = Some s' -> hd_in cont_pats s.
+Proof.
+  destruct x as [[[[tag a] b] sh] rest]. unfold g_suf.
+  destruct (tag =? tVarIndex). { intros H. gmatch H. hd_first H. }
+  destruct (tag =? tVarAttribute). { intros H. gmatch H. hd_first H. }
+  destruct (tag =? tFunctionCall).
+  { intros H. gmatch H. apply g_args_head in H. eapply hd_sub; [|exact H]. vm_compute. reflexivity. }
+  destruct (tag =? tFunctionCallMethod); [|discriminate]. intros H. gmatch H. hd_first H.
+Qed.
+
+(* two patterns that cannot match the same token *)
+Lemma kcontra k q1 q2 : kmatch k q1 = true -> kmatch k q2 = true -> pdisj q1 q2 = true -> False.
+Proof. intros H1 H2 Hd. rewrite (pdisj_sound q1 q2 k Hd H1) in H2. discriminate. Qed.
+
+Lemma hd_contra ps q i t r : hd_in ps ((i, t) :: r) -> kmatch (kd t) q = true -> forallb (fun q1 => pdisj q1 q) ps = true -> False.
+Proof.
+  intros (j & u & r' & E & Ha) Hk Hd. injection E as <- <- <-.
+  rewrite (anyof_miss ps q (kd t) Hd Ha) in Hk. discriminate.
+Qed.
+
+Lemma name_operand_second n g i t r0 s1 : g_operand n g ((i, t) :: r0) = Some s1 -> kmatch (kd t) (PClass CName) = true ->
+  s1 = r0 \/ hd_in cont_pats r0.
+Proof.
+  intros H Hk. destruct n; [discriminate|]. cbn [g_operand] in H. destruct g; try discriminate.
+  assert (Hpre : forall m x, g_prefix m x ((i, t) :: r0) = Some s1 -> s1 = r0 \/ hd_in cont_pats r0).
+  { intros m x Hx. apply spine in Hx. destruct Hx as (nb & base & l & sb & _ & Hb & Hl).
+    assert (sb = r0).
+    { unfold g_base in Hb. destruct base; try discriminate.
+      - gmatch Hb. destruct (tag0 =? tVarName); [|discriminate]. apply tokc_inv in Hb.
+        destruct Hb as (j & u0 & u & _ & E & _). injection E as _ _ <-. reflexivity.
+      - exfalso. apply obind_some in Hb. destruct Hb as (? & Hb & _). apply hd_eat_sym in Hb.
+        eapply hd_contra; [exact Hb | exact Hk | reflexivity]. }
+    subst sb. destruct l as [|[m' y] l]; cbn [g_sufs] in Hl.
+    - left. congruence.
+    - right. apply obind_some in Hl. destruct Hl as (? & Hl & _). eapply g_suf_head, Hl. }
+  destruct (tag =? tVarargDots).
+  { exfalso. gmatch H. apply hd_sym in H. eapply hd_contra; [exact H | exact Hk | reflexivity]. }
+  destruct (tag =? tExpValue); [|discriminate].
+  destruct fields as [|x [|y [|? ?]]]; try discriminate.
+  - destruct x; try discriminate.
+    + destruct (tag0 =? tFunction).
+      { exfalso. gmatch H. apply obind_some in H. destruct H as (? & H & _). apply hd_kw in H.
+        eapply hd_contra; [exact H | exact Hk | reflexivity]. }
+      destruct (tag0 =? tTableConstructor).
+      { exfalso. apply g_table_head in H. eapply hd_contra; [exact H | exact Hk | reflexivity]. }
+      eapply Hpre, H.
+    + exfalso. destruct (tokc CNumber (Tok i0 t0) ((i, t) :: r0)) eqn:E.
+      * apply hd_tokc in E. eapply hd_contra; [exact E | exact Hk | reflexivity].
+      * apply hd_tokc in H. eapply hd_contra; [exact H | exact Hk | reflexivity].
+    + eapply Hpre, H.
+  - exfalso. destruct x, y as [| | | |bb| | | |]; cbv beta iota in H; try discriminate H; try destruct bb;
+      apply hd_kw in H; (eapply hd_contra; [exact H | exact Hk | reflexivity]).
+  - exfalso. destruct x, y; cbv beta iota in H; try discriminate H;
+      match type of H with context [if ?b then _ else _] => destruct b end; discriminate H.
+Qed.
+
+Lemma name_second n seen items i t r0 s' mx :
+  g_chain n true seen items ((i, t) :: r0) = Some s' -> kmatch (kd t) (PClass CName) = true ->
+  follow (anyof [psym ","%bs; psym ";"%bs; psym "}"%bs]) mx s' -> follow (nomatch [psym "="%bs]) mx r0.
+Proof.
+  intros H Hk Hf. destruct n; [discriminate|]. cbn [g_chain] in H. destruct items as [|x r]; [discriminate|].
+  assert (Hop : (s <~ g_operand n x ((i, t) :: r0) ;; g_chain n false seen r s) = Some s' ->
+                follow (nomatch [psym "="%bs]) mx r0).
+  { clear H. intros H. apply obind_some in H. destruct H as (s1 & H1 & H2).
+    destruct (name_operand_second _ _ _ _ _ _ H1 Hk) as [->|Hh].
+    - destruct n; [discriminate|]. cbn [g_chain] in H2. destruct r as [|b r].
+      + destruct seen; cbn in H2; [|discriminate]. injection H2 as <-.
+        eapply follow_weaken; [|exact Hf]. intros k0 Hk0. eapply anyof_nomatch; [|exact Hk0]. vm_compute. reflexivity.
+      + apply obind_some in H2. destruct H2 as (? & H2 & _). apply tokp_inv in H2.
+        destruct H2 as (j & u0 & u & _ & -> & Hu). rewrite is_binop_anyof in Hu. apply follow_head.
+        eapply anyof_nomatch; [|exact Hu]. vm_compute. reflexivity.
+    - eapply hd_follow_nomatch; [|exact Hh]. vm_compute. reflexivity. }
+  destruct x; try (apply Hop, H).
+  exfalso. destruct (tokp is_unop (Tok i0 t0) ((i, t) :: r0)) eqn:E; [|discriminate].
+  apply tokp_inv in E. destruct E as (j & u0 & u & _ & E & Hu). injection E as <- <- <-.
+  rewrite is_unop_anyof in Hu. rewrite (anyof_miss gunops (PClass CName) (kd t) eq_refl Hu) in Hk. discriminate.
+Qed.
+
+(* the leading name of an expression is a leaf of its derivation *)
+Lemma leaves_wraps i : forall l base, In i (leaves base) -> In i (leaves (wraps base l)).
+Proof.
+  induction l as [|[n [[[[tag a] b] sh] rest]] l IH]; intros base H; [exact H|].
+  cbn [wraps]. apply IH. cbn [wrap1 leaves flat_map]. apply in_or_app. left. exact H.
+Qed.
+
+Lemma leaves_node1 tag s e sh x : leaves (Node tag s e sh [x]) = leaves x.
+Proof. cbn [leaves flat_map]. apply app_nil_r. Qed.
+
+Lemma name_operand_leaf n g i t r0 s1 : g_operand n g ((i, t) :: r0) = Some s1 -> kmatch (kd t) (PClass CName) = true ->
+  In i (leaves g).
+Proof.
+  intros H Hk. destruct n; [discriminate|]. cbn [g_operand] in H. destruct g; try discriminate.
+  assert (Hpre : forall m x, g_prefix m x ((i, t) :: r0) = Some s1 -> In i (leaves x)).
+  { intros m x Hx. apply spine in Hx. destruct Hx as (nb & base & l & sb & -> & Hb & Hl).
+    apply leaves_wraps. unfold g_base in Hb. destruct base; try discriminate.
+    - gmatch Hb. destruct (tag0 =? tVarName); [|discriminate]. apply tokc_inv in Hb.
+      destruct Hb as (j & u0 & u & -> & E & _). injection E as <- _ _. cbn [leaves flat_map app]. left. reflexivity.
+    - exfalso. apply obind_some in Hb. destruct Hb as (? & Hb & _). apply hd_eat_sym in Hb.
+      eapply hd_contra; [exact Hb | exact Hk | reflexivity]. }
+  destruct (tag =? tVarargDots).
+  { exfalso. gmatch H. apply hd_sym in H. eapply hd_contra; [exact H | exact Hk | reflexivity]. }
+  destruct (tag =? tExpValue); [|discriminate].
+  destruct fields as [|x [|y [|? ?]]]; try discriminate.
+  - destruct x; try discriminate.
+    + destruct (tag0 =? tFunction).
+      { exfalso. gmatch H. apply obind_some in H. destruct H as (? & H & _). apply hd_kw in H.
+        eapply hd_contra; [exact H | exact Hk | reflexivity]. }
+      destruct (tag0 =? tTableConstructor).
+      { exfalso. apply g_table_head in H. eapply hd_contra; [exact H | exact Hk | reflexivity]. }
+      rewrite leaves_node1. eapply Hpre, H.
+    + exfalso. destruct (tokc CNumber (Tok i0 t0) ((i, t) :: r0)) eqn:E.
+      * apply hd_tokc in E. eapply hd_contra; [exact E | exact Hk | reflexivity].
+      * apply hd_tokc in H. eapply hd_contra; [exact H | exact Hk | reflexivity].
+    + rewrite leaves_node1. eapply Hpre, H.
+  - exfalso. destruct x, y as [| | | |bb| | | |]; cbv beta iota in H; try discriminate H; try destruct bb;
+      apply hd_kw in H; (eapply hd_contra; [exact H | exact Hk | reflexivity]).
+  - exfalso. destruct x, y; cbv beta iota in H; try discriminate H;
+      match type of H with context [if ?b then _ else _] => destruct b end; discriminate H.
+Qed.
+
+Lemma name_chain_leaf n seen items i t r0 s' :
+  g_chain n true seen items ((i, t) :: r0) = Some s' -> kmatch (kd t) (PClass CName) = true ->
+  In i (flat_map leaves items).
+Proof.
+  intros H Hk. destruct n; [discriminate|]. cbn [g_chain] in H. destruct items as [|x r]; [discriminate|].
+  assert (Hop : (s <~ g_operand n x ((i, t) :: r0) ;; g_chain n false seen r s) = Some s' -> In i (flat_map leaves (x :: r))).
+  { clear H. intros H. apply obind_some in H. destruct H as (s1 & H1 & _). cbn [flat_map]. apply in_or_app. left.
+    eapply name_operand_leaf; eassumption. }
+  destruct x; try (apply Hop, H).
+  exfalso. destruct (tokp is_unop (Tok i0 t0) ((i, t) :: r0)) eqn:E; [|discriminate].
+  apply tokp_inv in E. destruct E as (j & u0 & u & _ & E & Hu). injection E as <- <- <-.
+  rewrite is_unop_anyof in Hu. rewrite (anyof_miss gunops (PClass CName) (kd t) eq_refl Hu) in Hk. discriminate.
+Qed.
+
+Lemma leaves_items g : flat_map leaves (items_of g) = leaves g.
+Proof.
+  destruct g; cbn [items_of flat_map]; try apply app_nil_r.
+  destruct (tag =? tChain); [reflexivity | apply app_nil_r].
+Qed.
+
+Lemma name_exp_leaf n g i t r0 s' : g_exp n g ((i, t) :: r0) = Some s' -> kmatch (kd t) (PClass CName) = true -> In i (leaves g).
+Proof.
+  intros H Hk. apply g_exp_items in H. destruct H as (m & H). rewrite <- leaves_items. eapply name_chain_leaf; eassumption.
+Qed.
+
+Lemma name_exp_second n g i t r0 s' mx : g_exp n g ((i, t) :: r0) = Some s' -> kmatch (kd t) (PClass CName) = true ->
+  follow (anyof [psym ","%bs; psym ";"%bs; psym "}"%bs]) mx s' -> follow (nomatch [psym "="%bs]) mx r0.
+Proof. intros H Hk Hf. apply g_exp_items in H. destruct H as (m & H). eapply name_second; eassumption. Qed.
